@@ -5,7 +5,7 @@
    Model: Mem/MemDB.v (the array-encoded skip list as coded in leveldb/memdb/memdb.go).
    Reference: Mem/MemSpec.v (sorted association list + cursor over its visible part). *)
 From GL Require Import Base.Order Codec.BytesCmp Codec.BytesCmpProofs Mem.MemDB Mem.MemSpec Mem.MemDBProofs
-  Gen.ConstsOkMem.
+  Mem.MemConc Mem.MemConcProofs Gen.ConstsOkMem.
 Open Scope N_scope.
 
 (* 0. The constants of the current source give the node layout the theorems assume. *)
@@ -68,6 +68,47 @@ Theorem C14_op_fuel_is_bound :
   forall c p d A L, Inv c (tMaxHeight p) d A L -> op_fuel d = (length L + N.to_nat (maxHeight d))%nat.
 Proof. exact op_fuel_is_bound. Qed.
 Print Assumptions C14_op_fuel_is_bound.
+
+(* 4. concurrent_readers_safe (array level).  Mem/MemConc.v: one writer whose Put/Delete are atomic
+   (the code holds p.mu.Lock for the whole call) interleaved in any order with any number of
+   readers, each of whose steps is one iterator call or one Get/Find/Contains (p.mu.RLock per
+   call); iterators keep only node index, direction and the copied key/value between steps.
+   For every such action sequence: no step panics (indexes outside the arrays) or runs out of
+   fuel, and everything a reader sees satisfies obs_good: a valid iterator shows a pair that is
+   in the writer's log (was stored at some time) and lies inside its slice; Next from a valid
+   position yields a strictly larger key, Prev a strictly smaller one, Seek k a key >= k; Get/Find
+   return logged pairs.  This holds also when the iterator's current key was deleted under it.
+   Outside the statement: Reset while iterators exist, the Go memory model below the granularity
+   of the two locks (checked by reading and by the stress runs of the harness). *)
+Theorem C14_concurrent_readers_safe :
+  forall c, comparer_ok c -> forall p, mparams_ok p ->
+  forall acts, aheights_ok p acts ->
+    exists obs, crun c p acts = Ok obs /\ Forall (obs_good c) obs.
+Proof. exact conc_safe. Qed.
+Print Assumptions C14_concurrent_readers_safe.
+
+(* Non-vacuity of 4: a reader stands on key 1; the writer deletes 1 and then 2; the reader's Next
+   follows the link the unlinked node kept and yields the pair (2, 20), which is no longer live but
+   was stored and is larger than 1; the following Next yields (3, 30). *)
+Definition c14_conc_example : list action :=
+  [AWPut [1] [10] 1; AWPut [2] [20] 2; AWPut [3] [30] 1; ARNew 0 None; ARMove 0 MFirst;
+   AWDelete [1]; AWDelete [2]; ARMove 0 MNext; ARMove 0 MNext; ARGet [2]; ARMove 0 MPrev].
+
+Example C14_conc_nonvacuous :
+  aheights_ok mp c14_conc_example /\
+  exists obs, crun bytewise mp c14_conc_example = Ok obs /\
+    map (fun o => match o with
+                  | ObsMove _ _ a _ => (it_key a, it_val a)
+                  | ObsGet _ v _ => (None, v)
+                  | _ => (None, None) end) obs =
+    [(None, None); (None, None); (None, None); (None, None); (Some [1], Some [10]);
+     (None, None); (None, None); (Some [2], Some [20]); (Some [3], Some [30]); (None, None);
+     (None, None)].
+Proof.
+  split.
+  - unfold c14_conc_example. repeat constructor; vm_compute; congruence.
+  - eexists. split; vm_compute; reflexivity.
+Qed.
 
 (* Non-vacuity: a program with an overwrite that changes the value length, a Delete, a Delete of
    an absent key, a sliced iterator walked in both directions around a write, Reset and reuse is
